@@ -20,6 +20,11 @@ func prelude() string {
 	b.WriteString("(declare-fun str_at (Str Int) Int)\n")
 	b.WriteString("(declare-fun str_cat (Str Str) Str)\n")
 	b.WriteString("(assert (forall ((a Str) (b Str)) (! (= (strlen (str_cat a b)) (+ (strlen a) (strlen b))) :pattern ((str_cat a b)))))\n")
+	for _, ks := range []string{SInt, SStr, SRef} {
+		for _, es := range []string{SRef, SStr} {
+			fmt.Fprintf(&b, "(declare-fun zeroarr_%s_%s () (Array %s %s))\n(assert (forall ((k %s)) (! (= (select zeroarr_%s_%s k) %s) :pattern ((select zeroarr_%s_%s k)))))\n", ks, es, ks, es, ks, ks, es, zeroOf(es).S, ks, es)
+		}
+	}
 	for _, w := range []int{8, 16, 32, 64} {
 		p := pow2(w).String()
 		h := pow2(w - 1).String()
@@ -292,17 +297,17 @@ func (s *State) binop(op token.Token, a, b Val, spec bool) Val {
 			case token.SUB:
 				return bv("bvsub")
 			case token.MUL:
-				return bv("bvmul")
+				return bv(fmt.Sprintf("bvmul@%d", w))
 			case token.QUO:
 				if ii.signed {
-					return bv("bvsdiv")
+					return bv(fmt.Sprintf("bvsdiv@%d", w))
 				}
-				return bv("bvudiv")
+				return bv(fmt.Sprintf("bvudiv@%d", w))
 			case token.REM:
 				if ii.signed {
-					return bv("bvsrem")
+					return bv(fmt.Sprintf("bvsrem@%d", w))
 				}
-				return bv("bvurem")
+				return bv(fmt.Sprintf("bvurem@%d", w))
 			case token.AND:
 				return bv("bvand")
 			case token.OR:
@@ -344,7 +349,12 @@ func (s *State) toIntSpec(x Scalar) Scalar {
 }
 
 func (s *State) bvToInt(t Term, ii intInfo) Term {
-	u := app(SInt, "bv2nat", t)
+	if s.c.sorts == nil {
+		s.c.sorts = map[string]string{}
+	}
+	s.c.sorts[t.S] = t.Sort // remembered so that int2bv(bv2nat t) can be simplified back to t
+	wd, _ := isBV(t.Sort)
+	u := app(SInt, fmt.Sprintf("bv2nat@%d", wd), t)
 	if ii.signed {
 		return tIte(tLt(u, bigLit(pow2(ii.bits-1))), u, tSub(u, bigLit(pow2(ii.bits))))
 	}
@@ -554,7 +564,26 @@ func (s *State) convert(v Val, to types.Type) Val {
 		}
 		return Scalar{t, to}
 	default: // Int -> BV
-		return Scalar{app(ti.sort(), fmt.Sprintf("(_ int2bv %d)", ti.bits), sc.T), to}
+		// a value that came from a bit-vector of the same width goes back unchanged
+		// (int2bv(bv2nat x) = x, also through the signed reinterpretation)
+		inner := sc.T.S
+		for _, w := range []string{"wrap_s", "wrap_u", "wrapm_s", "wrapm_u"} {
+			pre := fmt.Sprintf("(%s%d ", w, ti.bits)
+			if strings.HasPrefix(inner, pre) && strings.HasSuffix(inner, ")") {
+				inner = inner[len(pre) : len(inner)-1]
+				break
+			}
+		}
+		if pre := fmt.Sprintf("(bv2nat@%d ", ti.bits); strings.HasPrefix(inner, pre) && strings.HasSuffix(inner, ")") {
+			x := inner[len(pre) : len(inner)-1]
+			if balanced(x) {
+				// the width of x must be the target width: bv2nat of a narrower vector zero-extends
+				if w, ok := s.c.bvWidthOf(x); ok && w == ti.bits {
+					return Scalar{Term{x, ti.sort()}, to}
+				}
+			}
+		}
+		return Scalar{app(ti.sort(), fmt.Sprintf("int2bv@%d", ti.bits), sc.T), to}
 	}
 }
 
@@ -599,4 +628,20 @@ func (s *State) unop(op token.Token, v Val, spec bool) Val {
 	}
 	s.c.unsup("unary %s", op)
 	return sc
+}
+
+func balanced(x string) bool {
+	d := 0
+	for _, r := range x {
+		switch r {
+		case '(':
+			d++
+		case ')':
+			d--
+			if d < 0 {
+				return false
+			}
+		}
+	}
+	return d == 0
 }
